@@ -224,6 +224,25 @@ def run_times(spec, ctx):
                 ctx.violation("C17:to_date:" + cls, "%s -> %r -> %s" % (dt, n, back), {"dt": dt.isoformat()})
         except Exception as e:  # noqa
             ctx.violation("C17:to_date-raises:%s:%s" % (type(e).__name__, cls), "%s raised %r" % (dt, e), {"dt": dt.isoformat()})
+        if i % 4 == 1:
+            # differences of dates that carry a time of day, aimed at day numbers where the spacing of doubles
+            # changes (powers of two): (d + n) - d must still be exactly n
+            p2 = r.choice([8192, 16384, 32768, 65536, 131072, 262144, 524288, 1048576, 2097152])
+            base = datetime.datetime.fromordinal(EPOCH + p2 - r.randint(0, 40))
+            d0 = base.replace(hour=r.randint(0, 23), minute=r.randint(0, 59), second=r.randint(0, 59))
+            k = r.randint(1, 60)
+            s0 = d0.strftime("%Y%m%d%H%M%S")
+            env = ckl.functions.Environment()
+            o = observe(lambda: it.interpret("[(date('%s') + %d) - date('%s'), date('%s') - (date('%s') - %d), string((date('%s') + %d) - %d)]"
+                                             % (s0, k, s0, s0, s0, k, s0, k, k), "c17", env), 3000000)
+            ctx.count("program_evaluations")
+            ctx.count("timed_differences")
+            ctx.case(("timed-diff", s0, k))
+            want = "[%d, %d, '%s']" % (k, k, s0)
+            if o.kind != "value":
+                ctx.violation("C17:difference-raises:time-of-day", "(date('%s') + %d) - date('%s') -> %s" % (s0, k, s0, core.safe_str(o.exc, 100)), {"dt": s0})
+            elif str(o.value) != want:
+                ctx.violation("C17:difference:time-of-day", "[(d+%d)-d, d-(d-%d), (d+%d)-%d] for d = date('%s') is %s, calendar says %s" % (k, k, k, k, s0, o.value, want), {"dt": s0})
         if i % 20 == 0:
             s = dt.strftime("%Y%m%d%H%M%S")
             env = ckl.functions.Environment()
